@@ -169,6 +169,12 @@ Next == bad = {} /\ Len(sched) < MaxSteps /\ (Report \/ Pause \/ Resume \/ Cance
 
 Spec == Init /\ [][Next]_vars
 
+(* progress: with a generous step bound no behaviour is ever cut by the bound, i.e. every         *)
+(* behaviour of the conductor with the provider comes to an end by itself (an offer that is      *)
+(* re-issued forever, a retry that never exhausts, would hit the bound); together with C03_rest  *)
+(* at the end this is "eventually resting".                                                     *)
+BoundNotHit == Len(sched) < MaxSteps
+
 NoViolation == \A c \in bad : c[1] = "KF"
 
 (* leaves (no enabled choice) are printed for replay into the real conductor *)
